@@ -9,21 +9,21 @@ PROPS = {
                 real=[("bigprot", 1, 1)]),
     "C03": dict(fams=[("tbsgrid", 0, 0), ("v1", 2500, 100000), ("vm", 1000, 50000), ("cs", 600, 30000), ("ecgrid", 0, 0), ("he", 600, 20000)],
                 real=[("tamper", 200, 8000)]),
-    "C04": dict(fams=[("seqgrid", 40, 2000), ("alggrid", 0, 0), ("s1", 300, 20000), ("he", 200, 5000)]),
-    "C05": dict(fams=[("depthgrid", 0, 0), ("tbsgrid", 0, 0), ("dec", 6000, 600000), ("dechdr", 2000, 100000), ("hdrgrid", 0, 0)]),
+    "C04": dict(fams=[("seqgrid", 40, 2000), ("alggrid", 0, 0), ("taggrid", 0, 0), ("s1", 300, 20000), ("he", 200, 5000)]),
+    "C05": dict(fams=[("depthgrid", 0, 0), ("tbsgrid", 0, 0), ("taggrid", 0, 0), ("dec", 6000, 600000), ("dechdr", 2000, 100000), ("hdrgrid", 0, 0)]),
     "C06": dict(fams=[("depthgrid", 0, 0), ("tbsgrid", 0, 0), ("dec", 2500, 300000), ("use", 2500, 200000), ("keygrid", 600, 60000), ("hist", 400, 30000),
                       ("dechdr", 800, 50000), ("hacc", 600, 30000)]),
     "C07": dict(fams=[("tbsgrid", 0, 0), ("depthgrid", 0, 0), ("v1", 3000, 200000), ("vm", 1500, 100000), ("dec", 1500, 100000), ("reenc", 500, 20000)],
                 real=[("foreign", 100, 5000), ("bigprot", 1, 1)]),
-    "C08": dict(fams=[("encgrid", 0, 0), ("hdrgrid", 0, 0), ("depthgrid", 0, 0), ("enc", 3000, 300000), ("s1", 800, 40000), ("sm", 400, 20000), ("cs", 400, 20000),
+    "C08": dict(fams=[("encgrid", 0, 0), ("signgrid", 0, 0), ("hdrgrid", 0, 0), ("depthgrid", 0, 0), ("enc", 3000, 300000), ("s1", 800, 40000), ("sm", 400, 20000), ("cs", 400, 20000),
                       ("keyrt", 200, 3000), ("he", 300, 10000)]),
     "C09": dict(fams=[("seqgrid", 40, 2000), ("tbsgrid", 0, 0), ("hdrgrid", 0, 0), ("reenc", 4000, 400000)]),
     "C10": dict(fams=[("tbsgrid", 0, 0), ("cs", 4000, 300000), ("dec", 1500, 60000)], real=[("bigprot", 1, 1)]),
     "C11": dict(fams=[("signgrid", 0, 0), ("seqgrid", 20, 1000), ("sm", 600, 60000), ("vm", 600, 60000)]),
     "C12": dict(fams=[("he", 3000, 200000)]),
-    "C13": dict(fams=[("seqgrid", 40, 2000), ("tbsgrid", 0, 0), ("hdrgrid", 0, 0), ("enc", 1000, 100000), ("dechdr", 1000, 100000), ("hacc", 400, 20000)]),
+    "C13": dict(fams=[("seqgrid", 40, 2000), ("tbsgrid", 0, 0), ("taggrid", 0, 0), ("hdrgrid", 0, 0), ("enc", 1000, 100000), ("dechdr", 1000, 100000), ("hacc", 400, 20000)]),
     "C14": dict(fams=[("encgrid", 0, 0), ("keyrt", 600, 30000), ("keygrid", 300, 30000)], real=[("keysv", 60, 3000)]),
-    "C15": dict(fams=[("keygrid", 1500, 150000)]),
+    "C15": dict(fams=[("keygrid", 1500, 150000), ("taggrid", 0, 0)]),
     "C16": dict(fams=[("ecgrid", 0, 0), ("ecfault", 0, 0)]),
     "C17": dict(fams=[("newgrid", 0, 0)], real=[("digest", 40, 1000)]),
     "C18": dict(fams=[("seqgrid", 40, 2000), ("encgrid", 0, 0), ("v1", 800, 20000), ("vm", 400, 10000), ("cs", 500, 10000), ("he", 300, 5000),
@@ -71,6 +71,7 @@ DEEP = {
     "C17": ["CoseProofs.Deep.Signers", "CoseProofs.Ties.C17"],
     "C20": ["CoseProofs.Deep.Tamper", "CoseProofs.Deep.Signers", "CoseProofs.Ties.C20"],
     "C18": ["CoseProofs.Ties.C18"],
+    "C19": ["CoseProofs.Ties.C19"],
     "C16": ["CoseProofs.Deep.Signers", "CoseProofs.Ties.C16"],
 }
 
